@@ -274,6 +274,11 @@ def judge(u, t, p, mode, kind, col, record=True):
         v = pvars.get(name)
         if v is None or v[2] is None:
             continue
+        if has_nested_proj(tv) or has_nested_proj(v[2]) or any(has_nested_proj(x) for x in mm.values()):
+            # nested projections: RM (and its variance-composing substitution) is not defined on them - the bound of such
+            # a case is not judged (the substitute-back comparison above, which is syntactic, still is)
+            col.feature('bound_not_judged_nested_projection')
+            continue
         b = rm.subst(v[2], mm)
         bb = strip_open(b)
         comp = tv[2] if rm.is_proj(tv) and tv[0] == 'p' else tv
@@ -290,6 +295,19 @@ def strip_open(b):
     return b
 
 
+def has_nested_proj(t):
+    """a projection whose bound is a projection occurs in t (the reference relation RM is not defined on these)."""
+    if t is None or t[0] in ('b', 'c', 'star', 'bot', 'k', 'unk'):
+        return False
+    if t[0] == 'p':
+        return rm.is_proj(t[2]) or has_nested_proj(t[2])
+    if t[0] == 'v':
+        return has_nested_proj(t[2])
+    if t[0] == 'i':
+        return any(has_nested_proj(a) for a in t[2])
+    return False
+
+
 def mismatch(R, sp, t, mm, pvars):
     """None if sp equals t up to open variables whose bound the component satisfies."""
     if sp == t:
@@ -297,6 +315,8 @@ def mismatch(R, sp, t, mm, pvars):
     if sp[0] == 'v' and sp[1] not in mm:
         b = sp[2]
         if b is None:
+            return None
+        if has_nested_proj(t) or has_nested_proj(b) or any(has_nested_proj(x) for x in mm.values()):
             return None
         b = rm.subst(b, mm)
         comp = t[2] if rm.is_proj(t) and t[0] == 'p' else t
